@@ -9,21 +9,51 @@ batch) and on the extracted model:
 after every step status / truth tables / == matrix / root identity / variables() are compared with the model (whose ==
 matrix is all ones here, by C18_lambda, C18_synonyms, C18_roundtrip) and with plain truth-table arithmetic; the printed
 root str(p0.root) is tokenised and compared with the model's printer `(printbdd O e)`.  Error streams: a variable missing
-from the ordering / argument list (RuntimeError) and non-Boolean or ill-formed text (SyntaxError), in both notations."""
+from the ordering / argument list (RuntimeError) and non-Boolean or ill-formed text (SyntaxError), in both notations.
+When O has two or more variables a seventh slot p6 is built FIRST and stays alive: one of the four texts under ANOTHER
+argument order (so every case has two orderings alive together); well-formed expressions that are not lambdas go through the
+one-argument form OBDD(text) (SyntaxError); every comparison operator and chains of them are among the non-Boolean fragments;
+keyword chains have up to 6 operands."""
 from common import *
 import bddlib as B
 LEVEL = 'proof'
 PSIZE = 6
 
 
-def case_history(O, e, mixed=None, full=False):
+def case_history(O, e, mixed=None, full=False, shadow=None):
     """e: structure in operator style (to_op); mixed: the spelling used for the lambda form (default e)"""
     e_op = B.to_op(e)
     e_kw = B.to_kw(e)
     m = e if mixed is None else mixed
     ops = [B.mk_parse(0, O, e_op, full=full), B.mk_parse(1, O, m, lam=True), B.mk_parse(2, O, e_kw), B.mk_parse(3, O, e_kw, lam=True, full=full),
            ['reparse', 0, 4, 'root'], ['reparse', 0, 5, 'lambda']]
-    return {'psize': PSIZE, 'ops': ops, 'kind': 'roundtrip', 'O': list(O), 'e': e_op}
+    if len(O) >= 2 and shadow is not None:
+        # the same text under another argument order, built first and alive to the end: it is a different OBDD (unless constant)
+        which, O2 = shadow
+        src = ops[which]
+        ops.insert(0, B.mk_parse(6, O2, src[3], text=src[4], lam=(src[0] == 'lambda')))
+    return {'psize': PSIZE + 1 if len(ops) > 6 else PSIZE, 'ops': ops, 'kind': 'roundtrip', 'O': list(O), 'e': e_op,
+            'first': len(ops) - 6}
+
+
+def other_order(O, n):
+    """a permutation of O different from O, chosen by the counter n"""
+    O = list(O)
+    if n % 3 == 0:
+        return list(reversed(O))
+    if n % 3 == 1:
+        return O[1:] + O[:1]
+    return [O[1], O[0]] + O[2:]
+
+
+def notlambda_history(O, e, text=None):
+    """a well-formed Boolean expression that is NOT a lambda, through the one-argument form OBDD(text): SyntaxError"""
+    if text is None:
+        text = B.render(e)
+        B.check_render(e, text)
+    bad = ('bad', text)
+    ops = [B.mk_parse(0, O, e, text=text), B.mk_parse(1, O, bad, text=text, lam=True) + [text]]
+    return {'psize': 2, 'ops': ops, 'kind': 'notlambda', 'O': list(O), 'e': bad}
 
 
 def error_history(O, e, text=None, lam=True):
@@ -68,15 +98,15 @@ def batch(histories):
         if not viol and n in prints:
             o = prints[n]
             if o[0] != 'ok':
-                raise B.MachineryError('printbdd failed on %r' % (histories[n]['ops'][0],))
-            lib_str = strs[0][0][0]
+                raise B.MachineryError('printbdd failed on %r' % (histories[n]['ops'][histories[n]['first']],))
+            lib_str = strs[histories[n]['first']][0][0]
             lt = B.tokens_of(lib_str)
             mt = B.model_tokens(o[1])
             if lt != mt:
-                viol = [('printed root differs from the model printer', 0,
+                viol = [('printed root differs from the model printer', histories[n]['first'],
                          ['str(root) = %r, tokens %s; model tokens %s' % (lib_str, lt, mt)])]
             # str(o) is 'lambda <ordering>: <str(root)>' - recorded as internal agreement only
-            extra = (lib_str, strs[0][0][1] == B.lambda_text(histories[n]['O'], lib_str))
+            extra = (lib_str, strs[histories[n]['first']][0][1] == B.lambda_text(histories[n]['O'], lib_str))
         out.append((viol, info, extra))
     return out
 
@@ -111,22 +141,32 @@ def run(R):
     n_corpus = len(hs)
     for t in B.LEXICAL_VARIANTS:
         hs.append(text_history([0, 1, 2], t))
+    # keyword chains of 4 and more operands
+    for n, t in enumerate(B.NARY_TEXTS):
+        for O in ([0, 1, 2, 3], perms4[(5 * n + 7) % 24]):
+            hs.append(text_history(O, t))
+    n_variants = len(B.LEXICAL_VARIANTS) + 2 * len(B.NARY_TEXTS)
+    n_shadow = [0]
+
+    def shadow_for(O):
+        n_shadow[0] += 1
+        return (n_shadow[0] % 4, other_order(O, n_shadow[0] // 4))
     # (a) exhaustive: every expression of depth <= 2 over a,b,c,0,1
     for n, e in enumerate(d2):
         if R.thorough or B.edepth(e) <= 1:
             for O in perms3:
-                hs.append(case_history(O, e))
+                hs.append(case_history(O, e, shadow=shadow_for(O)))
         else:
-            hs.append(case_history(perms3[n % 6], e))
+            hs.append(case_history(perms3[n % 6], e, shadow=shadow_for(perms3[n % 6]) if R.thorough or n % 4 < 2 else None))
             if n % 5 == 0:
-                hs.append(case_history(perms3[(n // 6 + 3) % 6], e))
+                hs.append(case_history(perms3[(n // 6 + 3) % 6], e, shadow=shadow_for(perms3[(n // 6 + 3) % 6])))
     # (a') the smallest orderings: NO variable at all (constant expressions only; str(o) is then 'lambda: <root>') and one variable
     c0, c1 = ('c', False, '0'), ('c', True, '1')
     for e in all_exprs(2, [c0, c1]):
         hs.append(case_history([], e))
     for e in all_exprs(2, [('v', 1), c0, c1]):
         hs.append(case_history([1], e))
-    n_exh = len(hs) - n_corpus - len(B.LEXICAL_VARIANTS)
+    n_exh = len(hs) - n_corpus - n_variants
     # (b) depth 3 over 3 variables and depth 4 over 4 variables, sampled, mixed spellings (keywords, n-ary and/or,
     #     True/False), every sample under one random argument order (thorough: two)
     for depth, nv, count in ((3, 3, 20000 if R.thorough else 1500), (4, 4, 12000 if R.thorough else 900)):
@@ -137,13 +177,13 @@ def run(R):
             while B.edepth(e) < depth - 1:
                 e = B.rand_expr(rng, depth, vs, p_kw=0.35, p_const=0.06)
             for O in rng.sample(perms, 2 if R.thorough else 1):
-                hs.append(case_history(O, e, mixed=e, full=rng.random() < 0.2))
+                hs.append(case_history(O, e, mixed=e, full=rng.random() < 0.2, shadow=shadow_for(O)))
     n_rt = len(hs) - n_corpus
     # (c) missing variable: argument list / ordering lacks a variable the expression uses
     pool = [h for h in hs if h['kind'] == 'roundtrip' and B.evars(h['e'])]
     for h in rng.sample(pool, min(len(pool), 6000 if R.thorough else 700)):
         gone = rng.choice(sorted(B.evars(h['e'])))
-        hs.append(error_history([v for v in h['O'] if v != gone], h['ops'][1][3]))
+        hs.append(error_history([v for v in h['O'] if v != gone], h['ops'][h['first'] + 1][3]))
     # (d) non-Boolean syntax inside an otherwise fine expression, and text Python itself rejects
     for _ in range(4000 if R.thorough else 500):
         e = B.rand_expr(rng, rng.randint(0, 3), [0, 1, 2], p_kw=0.3, p_const=0.05, p_bad=0.35)
@@ -158,24 +198,59 @@ def run(R):
         hs.append(error_history([0, 1, 2], ('bad', f), text=f))
     for t in B.BAD_TEXTS_EXPR_ONLY:                # fine as a lambda body, ill-formed as a whole text
         hs.append(error_history([0, 1, 2], ('bad', t), text=t, lam=False))
+    # (e) well-formed expressions that are not lambdas, through the one-argument form
+    n_before = len(hs)
+    for e in d2:
+        if B.edepth(e) <= 1:
+            hs.append(notlambda_history([0, 1, 2], e))
+    for h in rng.sample(pool, min(len(pool), 4000 if R.thorough else 400)):
+        src = h['ops'][h['first'] + rng.choice([0, 2])]
+        hs.append(notlambda_history(h['O'], src[3], text=src[4]))
+    for t in B.LEXICAL_VARIANTS + B.NARY_TEXTS:
+        hs.append(notlambda_history([0, 1, 2, 3], B.struct_of_text(t), text=t))
+    n_notlambda = len(hs) - n_before
     R.rule = ('(0) corpus first: %d statement-shaped texts (a = b, a; b, return a, x = lambda a: a, lambda a: a; 1, a += b, del a, pass, import a, '
               'multi-line text ...) as expression text, as the whole lambda text and as a lambda body -> SyntaxError, pool unchanged; %d lexical '
               'variants (leading blanks, comments, line continuation, redundant brackets, 0b1/0x0) read with Python\'s own parser -> same OBDD in '
-              'both notations; ' % (len(B.STATEMENT_TEXTS), len(B.LEXICAL_VARIANTS)) +
+              'both notations; %d texts with keyword chains of 4-8 operands (one BoolOp node), under two argument orders; '
+              % (len(B.STATEMENT_TEXTS), len(B.LEXICAL_VARIANTS), len(B.NARY_TEXTS)) +
               '(a) every expression over ~ & | of depth <= 2 with leaves a, b, c, 0, 1 (%d expressions): depth <= 1 under all 6 argument orders, '
               'depth 2 under %s; (b) random expressions of depth 3 over a..c and depth 4 over a..d with mixed spellings (& | ~ / and or not, '
-              'n-ary keyword chains, 0 1 True False), minimal or full bracketing, under random argument orders; each case builds the expression '
+              'keyword chains of 2-6 operands, 0 1 True False), minimal or full bracketing, under random argument orders; each case builds the expression '
               'form, the lambda form, both keyword forms, OBDD(str(o.root), o.ordering) and OBDD(str(o)) and compares all six pairwise (==, root '
-              'identity), plus the printed root token by token with the model printer; (c) the same expressions with one used variable removed '
-              'from the ordering / argument list -> RuntimeError in both notations; (d) non-Boolean fragments (%d kinds: + - < call if-else ^ '
-              'subscripts ...) planted in random expressions and %d ill-formed texts (dangling operator, empty string, unbalanced brackets, '
-              'indentation) -> SyntaxError in both notations, the pool unchanged. A case = (text, argument order); non-trivial = the diagram '
+              'identity), plus the printed root token by token with the model printer; whenever the argument order has >= 2 variables a seventh '
+              'OBDD (quick tier: for half of the depth-2 cases of (a), for all others) is built FIRST and kept alive to the end: one of the four texts (rotating: expression form, lambda form, keyword form, keyword '
+              'lambda form) under ANOTHER argument order (reversed / rotated / first two swapped), so two orderings with the same variables and the '
+              'same text are alive together and the seventh must differ from the six unless the function is constant; (c) the same expressions with one used variable removed '
+              'from the ordering / argument list -> RuntimeError in both notations; (d) non-Boolean fragments (%d kinds: + - call if-else ^ '
+              'subscripts, EVERY comparison operator < <= > >= == != in not-in is is-not, chained and mixed comparisons, comparisons with 0/1, '
+              'shifts, division, power, set/dict/tuple displays, comprehension, slice, f-string ...) planted in random expressions and %d ill-formed texts (dangling operator, empty string, unbalanced brackets, '
+              'indentation, walrus, star, <> !== =< =>) -> SyntaxError in both notations, the pool unchanged; (e) well-formed Boolean expressions '
+              'that are NOT lambdas (all of depth <= 1, a sample of the texts of (a)/(b) in both spellings, the lexical variants and long chains) '
+              'through the one-argument form OBDD(text) -> SyntaxError, pool unchanged. A case = (text, argument order); non-trivial = the diagram '
               'of the expression has >= 2 internal nodes (error cases: the rejected text has at least one operator)'
               % (len(d2), 'all 6' if R.thorough else '1-2 of the 6 (rotating)', len(B.BAD_FRAGMENTS), len(B.BAD_TEXTS)))
     batches = B.chunks(hs, 60)
     results = B.parallel(batch, batches)
-    kinds = {'statement_corpus': n_corpus, 'lexical_variants': len(B.LEXICAL_VARIANTS), 'exhaustive_depth<=2': n_exh,
-             'sampled_depth3/4': n_rt - n_exh - len(B.LEXICAL_VARIANTS), 'error_cases': len(hs) - n_rt - n_corpus}
+    kinds = {'statement_corpus': n_corpus, 'lexical_variants_and_long_keyword_chains': n_variants, 'exhaustive_depth<=2': n_exh,
+             'sampled_depth3/4': n_rt - n_exh - n_variants, 'error_cases': len(hs) - n_rt - n_corpus - n_notlambda,
+             'expression_through_the_one_argument_form': n_notlambda,
+             'roundtrip_cases_with_a_second_ordering_alive': sum(1 for h in hs if h.get('first'))}
+    chain = {}
+
+    def widest(e):
+        t = e[0]
+        if t in ('v', 'c', 'bad'):
+            return 0
+        if t == 'not':
+            return widest(e[1])
+        if t in ('and', 'or'):
+            return max(2, widest(e[1]), widest(e[2]))
+        return max([len(e[1])] + [widest(x) for x in e[1]])
+    for h in hs:
+        if h['kind'] in ('roundtrip', 'variant'):
+            w = widest(h['ops'][h.get('first', 0) + (1 if h['kind'] == 'roundtrip' else 0)][3])
+            chain[w] = chain.get(w, 0) + 1
     errors, sizes, depths = {}, {}, {}
     fmt_ok = fmt_all = 0
     for bt, res in zip(batches, results):
@@ -185,17 +260,24 @@ def run(R):
                 B.report_violation(R, 'C18', h, v, extra={'kind': h['kind']})
             if viol:
                 continue
+            if h['kind'] == 'notlambda':
+                st = info[1]['status']
+                errors['one-argument form:' + st] = errors.get('one-argument form:' + st, 0) + 1
+                if any(c in h['ops'][1][4] for c in '&|~') or ' ' in h['ops'][1][4].strip():
+                    R.nontriv(('notlambda', h['ops'][1][4]))
+                continue
             if h['kind'] == 'roundtrip':
-                internal = info[0]['shape'][0][0]
+                f0 = h['first']
+                internal = info[f0]['shape'][0][0]
                 sizes[internal] = sizes.get(internal, 0) + 1
                 d = B.edepth(h['e'])
                 depths[d] = depths.get(d, 0) + 1
                 fmt_all += 1
                 fmt_ok += bool(extra[1])
                 if internal >= 2:
-                    R.nontriv((h['ops'][1][4], tuple(h['O'])))
+                    R.nontriv((h['ops'][f0 + 1][4], tuple(h['O'])))
                     if internal >= 4:
-                        R.sample({'lambda': B.lambda_text(h['O'], h['ops'][1][4]), 'keywords': h['ops'][2][4], 'str(root)': extra[0],
+                        R.sample({'lambda': B.lambda_text(h['O'], h['ops'][f0 + 1][4]), 'keywords': h['ops'][f0 + 2][4], 'str(root)': extra[0],
                                   'internal_nodes': internal})
             elif h['kind'] == 'variant':
                 R.nontriv(('variant', h['ops'][0][4]))
@@ -206,7 +288,7 @@ def run(R):
                     raise B.MachineryError('oracle: notations differ')
                 if any(c in h['ops'][1][4] for c in '&|~+-<^(') or ' ' in h['ops'][1][4].strip():
                     R.nontriv(('err', h['ops'][1][4], tuple(h['O'])))
-    R.cov['distribution'] = {'cases': kinds, 'expected_errors': errors, 'expression_depth': {str(k): v for k, v in sorted(depths.items())},
+    R.cov['distribution'] = {'cases': kinds, 'expected_errors': errors, 'widest_connective(operands)': {str(k): v for k, v in sorted(chain.items())}, 'expression_depth': {str(k): v for k, v in sorted(depths.items())},
                              'diagram_internal_nodes': {str(k): v for k, v in sorted(sizes.items())}}
     R.cov['internal_agreement'] = {'str(obdd) == "lambda <ordering>: " + str(root)': '%d/%d' % (fmt_ok, fmt_all)}
     R.cov['informational'] = ('not part of the violation logic: constants other than 0/1 (2, None, "x", ...) raise SyntaxError through the deprecated '
@@ -219,11 +301,12 @@ def replay(R, data):
     B.replay_history(R, data)
     d = data['data']
     ops = B.norm_ops(d['ops'])
-    if d.get('kind') == 'roundtrip' and ops and ops[0][0] == 'parse':
-        h = {'psize': d['psize'], 'ops': ops[:1]}
+    main = [n for n, op in enumerate(ops) if op[0] == 'parse' and op[1] == 0]
+    if d.get('kind') == 'roundtrip' and main:
+        h = {'psize': d['psize'], 'ops': ops[:main[0] + 1]}
         lib = B.run_library([h], want_str=True)[0]
-        out = model_batch([['printbdd', ops[0][2], B.sx(ops[0][3])]])[0]
-        s = lib[0]['strs'][ops[0][1]]
+        out = model_batch([['printbdd', ops[main[0]][2], B.sx(ops[main[0]][3])]])[0]
+        s = lib[main[0]]['strs'][0]
         print('printed root: library %r -> tokens %s' % (s[0] if s != '-' else s, B.tokens_of(s[0]) if s != '-' else None))
         print('              model   %s' % (out,))
         if s != '-' and out[0] == 'ok' and B.tokens_of(s[0]) != B.model_tokens(out[1]):
